@@ -21,7 +21,7 @@ import BaoProofs.Lemmas.PlanPreTop
    `Chunk.withoutRanges` and under raising the block size parameter to 0 (response plan).
 -/
 
-namespace Bao.SpecPred
+namespace Bao.SpecPre
 open Bao Bao.Ops Bao.Spec Bao.PlanPre Bao.Bits
 
 /-! ## 1. the clauses of the predicate -/
@@ -803,4 +803,4 @@ Proved:
 Partial: none.  OPEN: none.
 -/
 
-end Bao.SpecPred
+end Bao.SpecPre
